@@ -23,7 +23,7 @@ func (mw *Middleware) isBlockedByAccess(
 		optslog.Debug1(ctx, mw.logger, "access denied globally by ip", "remote_ip", ri.RemoteIP)
 
 		return true
-	} else if mw.accessManager.IsBlockedHost(ri.Host, ri.QType) {
+	} else if mw.accessManager.IsBlockedHost(hostForAccess(ri.Host), ri.QType) {
 		mw.metrics.IncrementAccessBlockedByHost(ctx)
 		optslog.Debug2(
 			ctx,
@@ -55,4 +55,15 @@ func (mw *Middleware) isBlockedByAccess(
 	}
 
 	return false
+}
+
+// hostForAccess returns the form of the normalized request host that the global
+// access rules can match.  It is the host itself unless it is the root domain,
+// for which the normalized host is empty, see [agdnet.NormalizeQueryDomain].
+func hostForAccess(host string) (h string) {
+	if host == "" {
+		return "."
+	}
+
+	return host
 }
